@@ -1,6 +1,7 @@
 import H264.SpsC04
 import H264.SpsExact
 import H264.Tables2
+import H264.TblProof
 /-! # C04 — SPS parsing recovers exactly the values encoded per H.264 7.3.2.1 / Annex E
 
 Model: `Sps.parseSps` mirrors `SeqParameterSet::from_bits` and all its sub-readers (same order of reads and checks).
@@ -77,5 +78,15 @@ theorem code_chroma_format_recovered : Generated.chromaFormat.length = 16 ∧
     (∀ i : Fin 4, (Generated.chromaFormat.getD i.val (0,0)).1 = 1) ∧
     (∀ i j : Fin 4, (Generated.chromaFormat.getD i.val (0,0)).2 = (Generated.chromaFormat.getD j.val (0,0)).2 → i = j) :=
   Tables2.chromaFormat_table
+
+/-- **model parser = real parser on the swept frames, by proof**: for every aspect_ratio_idc / video_format /
+chroma_format_idc, running the *model* `Sps.parseSps` on the very bit string the harness fed to
+`SeqParameterSet::from_bits` yields the row the real parser produced (regenerated and re-decided by the kernel on every run) -/
+theorem model_parser_reproduces_code_on_aspect_ratio_sweep :
+    ∀ b : Fin 256, TblProof.aspectCode b.val = some (Generated.aspect.getD b.val (999, 0, 0)) := TblProof.aspect_model_eq_code
+theorem model_parser_reproduces_code_on_video_format_sweep :
+    ∀ i : Fin 8, TblProof.videoFormatCode i.val = some (Generated.videoFormat.getD i.val 999) := TblProof.videoFormat_model_eq_code
+theorem model_parser_reproduces_code_on_chroma_format_sweep :
+    ∀ i : Fin 16, TblProof.chromaFormatCode i.val = Generated.chromaFormat.getD i.val (9, 9) := TblProof.chromaFormat_model_eq_code
 
 end C04
